@@ -51,17 +51,27 @@ def graph_shapes() -> dict[str, dict[str, list[str]]]:
 N_VARIANTS = 24
 
 
+def wide_arity(ident: str) -> int:
+	"""Number of parameters of `w_<ident>`: 9..12, fixed per module name (a caller must know it without knowing the variant).
+	With the return type a function symbol then has 10..13 attributes on one level (two-digit attribute indices)."""
+	return 9 + sum(ord(c) for c in ident) % 4
+
+
 def module_source(name: str, imports: list[str], variant: int) -> str:
-	"""A small typed module. `variant` selects the declared return type of `g_<name>`, where the module-level variable
-	`v_<name>` takes its (inferred) type from, and what the local `z` in `h_<name>` is assigned from."""
+	"""A small typed module. `variant` selects the declared return type of `g_<name>` and of the wide function `w_<name>`
+	(9..12 parameters), where the module-level variable `v_<name>` takes its (inferred) type from, and what the locals `z`
+	and `y` in `h_<name>` are assigned from (an imported variable / the result of an imported wide function)."""
 	ty, lit = TYPES[variant % 4]
 	var_mode = (variant // 4) % 3
 	loc_mode = (variant // 12) % 2
 	dotted = imports
 	name = name.replace('.', '_')
 	imports = [d.replace('.', '_') for d in imports]
-	lines = [f'from {PKG}.{d} import g_{i}, v_{i}' for d, i in zip(dotted, imports)]
+	lines = [f'from {PKG}.{d} import g_{i}, v_{i}, w_{i}' for d, i in zip(dotted, imports)]
 	lines += ['', f'def g_{name}() -> {ty}:', f'\treturn {lit}', '']
+	n = wide_arity(name)
+	params = ', '.join([*(f'a{k}: int' for k in range(n - 1)), f'a{n - 1}: float'])
+	lines += [f'def w_{name}({params}) -> {ty}:', f'\treturn {lit}', '']
 	if imports and var_mode == 1:
 		lines.append(f'v_{name} = g_{imports[0]}()')
 	elif imports and var_mode == 2:
@@ -73,6 +83,10 @@ def module_source(name: str, imports: list[str], variant: int) -> str:
 		lines.append(f'\tz = v_{imports[0]}')
 	else:
 		lines.append(f'\tz = v_{name}')
+	for i in imports[:2]:
+		k = wide_arity(i)
+		args = ', '.join([*(str(j) for j in range(k - 1)), f'{k - 1}.0'])
+		lines.append(f'\ty_{i} = w_{i}({args})')
 	lines += ['\treturn 0', '']
 	return '\n'.join(lines)
 
